@@ -35,9 +35,9 @@ man = {
     "setup_cmd": "./setup.sh",
     "hooks": {
         "guard": "--cfg statime_verif",
-        "enable": "RUSTFLAGS=\"--cfg statime_verif\" (set by lib/vlib.py for every harness build; no hook is currently compiled in /repo)",
+        "enable": "RUSTFLAGS=\"--cfg statime_verif\" (set by lib/vlib.py for every harness build); hook: statime::verif (statime/src/lib.rs), entry points to the crate-private TimeInterval/WireTimestamp conversions used by the C16 harness",
         "baseline_off_cmd": "cd /repo && cargo test --workspace --no-fail-fast --offline",
-        "source_commits": [],
+        "source_commits": ["3126fc3"],
         "add_only": True,
     },
     "engines": [{
